@@ -117,6 +117,9 @@ SameVersion(S, pick) == \A x, y \in S : pick[x] = pick[y]
 \* (only there: with Shamir sharing two versions' shares coincide in GF(Q) by accident, never in the real group)
 SameShares(S, pick) == \E v \in 1..Len(ver) : \A x \in S : ver[pick[x]].share[x] = ver[v].share[x]
 
+\* kind "reconstruct" with expectation "mixed": judged on the real shares for every (t+1)-subset of S whose members picked
+\* different versions (a reconstruction takes t+1 shares; interpolating through more points at once can hit the key by an
+\* algebraic coincidence of the evaluation points - e.g. t = 1 and the symmetric split {1,4} / {2,3} of consecutive points)
 \* kind "online" (CMP): the signers first produce a presignature with the OLDEST version any of them picked (all of them
 \* hold it), later each signs with the version it picked; the expectation is the same: a signature iff all use one version
 Probe(kind, S, pick) ==
